@@ -205,6 +205,7 @@ def index_render(i: int, n: int) -> bool:
         if j < n:
             arr.append(100 + j)
     doc = {"a": arr}
+    i = pick(list(range(13)), i)
     text = "/a/" + str(i)
     p = JSONPointer(text, unicode_escape=False)
     try:
